@@ -1155,6 +1155,27 @@ impl Transaction {
                 error!("ERROR 802394: transaction spends more than it has available");
                 return false;
             }
+            //
+            // total_in / total_out are 64-bit sums and wrap for very large amounts, so the
+            // comparison above can be satisfied by outputs that overflow. compare the exact
+            // totals as well (bound slips carry no value, as in generate_total_fees)
+            //
+            let mut exact_total_in: u128 = 0;
+            for slip in self.from.iter() {
+                if slip.slip_type != SlipType::Bound {
+                    exact_total_in += slip.amount as u128;
+                }
+            }
+            let mut exact_total_out: u128 = 0;
+            for slip in self.to.iter() {
+                if slip.slip_type != SlipType::Bound {
+                    exact_total_out += slip.amount as u128;
+                }
+            }
+            if exact_total_out > exact_total_in {
+                error!("ERROR 802395: transaction outputs exceed its inputs");
+                return false;
+            }
         }
 
         //
